@@ -234,9 +234,56 @@ def _timeout_rule(chk, prog):
                           "current generation and cancels its next, unrelated wait" % (fn.name, bad[0].text()[:40]))
         else:
             chk.ok(rule, "%s: nothing can raise between arming the timeout and suspending" % fn.name)
+
+    # the call that ends the function after arming is itself a small function that registers the wait and suspends
+    # (janet_ev_read -> janet_ev_read_generic -> janet_async_start -> janet_await): nothing on that way may raise either
+    awaiters = set()
+    for fn in full.all_funcs():
+        arms = fn.calls("janet_addtimeout", "janet_addtimeout_nil")
+        if not arms:
+            continue
+        first = min(a.ln for a in arms)
+        for c in fn.calls():
+            if c.callee and c.ln > first and full.is_noreturn(c.callee) and not c.callee.startswith("janet_panic"):
+                awaiters.add(c.callee)
+    byname = {}
+    for f_ in full.all_funcs():
+        byname.setdefault(f_.name, f_)
+    todo = list(awaiters)
+    while todo:
+        f = byname.get(todo.pop())
+        if f is None:
+            continue
+        for c in f.calls():
+            if c.callee and full.is_noreturn(c.callee) and c.callee not in awaiters and not c.callee.startswith("janet_panic") \
+                    and c.callee not in ("janet_signalv", "abort", "exit", "janet_await"):
+                awaiters.add(c.callee)
+                todo.append(c.callee)
+    # the registration helper the awaiters share is part of the same hand-over
+    for nm in list(awaiters):
+        f = byname.get(nm)
+        if f is not None:
+            for c in f.calls():
+                if c.callee and "async_start" in c.callee:
+                    awaiters.add(c.callee)
+    for nm in sorted(awaiters):
+        f = byname.get(nm)
+        if f is None:
+            continue
+        chk.analysed(f)
+        chk.instance(rule)
+        # direct raises only: the registration goes through event-callback pointers (INIT), which the may-raise summary
+        # cannot bound, so the clause is limited to what these few functions do themselves
+        bad = [c for c in f.calls() if (c.callee or "").startswith("janet_panic") or c.callee == "janet_signalv"]
+        if bad:
+            chk.violation(rule, f.tu.name, f.name, "awaiter:%s" % (bad[0].callee or "pointer"), bad[0].loc,
+                          "%s is what a stream operation calls to register and suspend after it has armed its timeout, and `%s` in it can "
+                          "raise: the timeout then stays armed with the fiber's current generation and fires into the fiber's next wait" % (
+                              f.name, bad[0].text()[:50]))
+        else:
+            chk.ok(rule, "%s: registers and suspends without a raising call" % f.name)
     if n < 6:
         raise AnalysisBroken("only %d functions arming timeouts found" % n)
-
 
 def run(chk):
     prog = Program.load("default", units=UNITS)
